@@ -473,10 +473,20 @@ func main() {
 		os.Exit(0)
 	}
 	maxD, maxS := 4, 1
-	if r.Thorough() {
-		maxD, maxS = 5, 2
-	}
 	ps := programs(maxD, maxS)
+	if r.Thorough() {
+		// wider declaration sets with one statement item, and pairs of statement items over smaller declaration sets
+		// (the full product 5 x 2 does not fit in memory since the statement alphabet has 24 items)
+		maxD, maxS = 5, 2
+		seen := map[string]bool{}
+		ps = nil
+		for _, p := range append(programs(5, 1), programs(3, 2)...) {
+			if !seen[p.Name] {
+				seen[p.Name] = true
+				ps = append(ps, p)
+			}
+		}
+	}
 	var runs []run
 	for _, p := range ps {
 		for _, m := range []string{"whole-compile", "whole-ast", "whole-disk", "whole-mapfs"} {
@@ -641,7 +651,7 @@ func main() {
 	r.Set("distinct_nontrivial", len(res.Sets["outputs"]))
 	r.Set("whole_programs_rejected_runs", res.Counts["whole_program_rejected"])
 	r.Set("exhaustive", true)
-	r.Set("rule", fmt.Sprintf("programs = every dependency-closed subset of <= %d of 18 declaration items (define-before-use order) x every sequence (24 statement items, incl. blocks that shadow a global and var statements in the middle of a chunk used by later chunks) of <= %d applicable statements + a final Show of all declared globals; every cut of the declaration section and of the statement section into consecutive chunks (statement sections with more than 5 cut points: no cut, every cut, each single cut, each single missing cut) x {successive Eval, Compile+Execute, CompileAST+Execute}; whole program through Compile+Execute, CompileAST, EvalPath on disk and on MapFS; every cut of the declaration section written as the files of one package directory (file names in chunk order and in reverse chunk order, main in the last / first file) and loaded by EvalPath(dir) on disk and on MapFS; reference = Eval of the whole program in a fresh interpreter; states = distinct whole-program outputs", maxD, maxS))
+	r.Set("rule", fmt.Sprintf("programs = every dependency-closed subset of <= %d (thorough: <= 5 with one statement item, <= 3 with two) of 18 declaration items (define-before-use order) x every sequence (24 statement items, incl. blocks that shadow a global and var statements in the middle of a chunk used by later chunks) of <= %d applicable statements + a final Show of all declared globals; every cut of the declaration section and of the statement section into consecutive chunks (statement sections with more than 5 cut points: no cut, every cut, each single cut, each single missing cut) x {successive Eval, Compile+Execute, CompileAST+Execute}; whole program through Compile+Execute, CompileAST, EvalPath on disk and on MapFS; every cut of the declaration section written as the files of one package directory (file names in chunk order and in reverse chunk order, main in the last / first file) and loaded by EvalPath(dir) on disk and on MapFS; reference = Eval of the whole program in a fresh interpreter; states = distinct whole-program outputs", maxD, maxS))
 	r.Assumptions = []string{"a chunk is either declarations or statements (declarations precede statements); forward references across a cut are not demanded", "reference = the whole program evaluated once (C01 binds that to the compiler)"}
 	for _, i := range []int{0, len(runs) / 2, len(runs) - 1} {
 		r.Sample(map[string]interface{}{"program": runs[i].P.Name, "mode": runs[i].Mode, "decl_cuts": runs[i].DMask, "stmt_cuts": runs[i].SMask, "decls": runs[i].P.Decls, "stmts": runs[i].P.Stmts})
